@@ -37,6 +37,13 @@ pub enum Step {
     /// every message between `a` and `b` is lost until `Heal` (or until the faults stop)
     Partition { a: u8, b: u8 },
     Heal,
+    /// the node's responsible range is set to the distance of its `j`-th closest PEER: exactly j peers of its
+    /// routing table lie within the range (fewer than CLOSE_GROUP_SIZE in range: the closest CLOSE_GROUP_SIZE remain
+    /// its replication targets)
+    SetPeerRange { node: u8, j: u8 },
+    /// routing-table churn at `node`: one of its extra filler peers leaves the table and a peer never seen before
+    /// joins (the table keeps its size); what the peer that left advertises afterwards must be ignored
+    Churn { node: u8, which: u8 },
 }
 
 #[derive(Serialize, Deserialize, Clone, Debug)]
@@ -55,6 +62,10 @@ pub struct Plan {
     /// of that owner's pre-signed block of ops, so divergent replicas each hold more than half the entry limit
     #[serde(default)]
     pub big_registers: bool,
+    /// swarm knob: number of filler peers in every routing table (0 = 2, the historic value); with more than 2 a
+    /// node has more peers than CLOSE_GROUP_SIZE and not every node is every other node's replication target
+    #[serde(default)]
+    pub fillers: u8,
 }
 
 pub struct ClusterSim;
@@ -75,6 +86,7 @@ impl Sim for ClusterSim {
                 "libp2p transport / kad / request-response are stubs: the simulator carries the same Request/Response values between the real handlers of the nodes",
                 "the payment contract is the in-process ledger (all uploads in this sim carry valid payments)",
                 "all nodes are within each other's K closest and replication candidates (small routing tables), spare capacity; a responsible range is set at some nodes in a third of the runs (pairs out of a node's range are exempt from the convergence requirement, never from the advertise-everything requirement)",
+                "in two fifths of the runs the routing tables hold 3-8 filler peers besides the nodes (more peers than CLOSE_GROUP_SIZE), ranges are also set by peer rank and filler peers leave / join; convergence is then required only when every node is a replication target of every other node (within the sender's range when at least CLOSE_GROUP_SIZE peers are, else among its CLOSE_GROUP_SIZE closest - computed with the harness's own metric)",
                 "std::time::Instant deadlines of the replication throttle / fetcher are aged through the guarded hook (equivalent to the clock advancing)",
             ],
         }]
@@ -92,6 +104,11 @@ impl Sim for ClusterSim {
         let with_restarts = fault && rng.chance(1, 2);
         let with_partitions = fault && rng.chance(1, 2);
         let mut steps = vec![];
+        // swarm knob: bigger routing tables (peer-based ranges and churn only there)
+        let fillers: u8 = if rng.chance(2, 5) { *rng.pick(&[3u8, 4, 5, 6, 8]) } else { 0 };
+        if fillers != 0 && rng.chance(1, 2) {
+            steps.push(Step::SetPeerRange { node: rng.below(n_nodes as u64) as u8, j: rng.range(3, 6) as u8 });
+        }
         for _ in 0..n_uploads {
             let kind = rng.below(4) as u8;
             let items = (0..rng.urange(1, 3)).map(|_| rng.below(5) as u8).collect();
@@ -120,6 +137,15 @@ impl Sim for ClusterSim {
             if rng.chance(1, 3) {
                 steps.push(Step::Round);
             }
+            if fillers != 0 && rng.chance(1, 4) {
+                steps.push(Step::Churn { node: rng.below(n_nodes as u64) as u8, which: rng.below(8) as u8 });
+                if rng.chance(1, 2) {
+                    steps.push(Step::ForeignAdvert { node: rng.below(n_nodes as u64) as u8 });
+                }
+            }
+            if fillers != 0 && rng.chance(1, 8) {
+                steps.push(Step::SetPeerRange { node: rng.below(n_nodes as u64) as u8, j: rng.range(2, 7) as u8 });
+            }
             if with_ranges && rng.chance(1, 4) {
                 steps.push(Step::SetRange { node: rng.below(n_nodes as u64) as u8, sel: rng.below(8) as u8 });
             }
@@ -145,6 +171,7 @@ impl Sim for ClusterSim {
             final_rounds: 6,
             cache: *rng.pick(&[0usize, 0, 1, 2]),
             big_registers: rng.chance(1, 30),
+            fillers,
         }
     }
 
